@@ -12,4 +12,14 @@ RehangInit == /\ \E n \in 2..4 : chain = SubSeq(Hops, 1, n)
               /\ last = [op |-> "none"] /\ hist = <<>>
 RehangSpec == RehangInit /\ [][RehangNext]_vars
 EmitRehang == (Len(hist) = 5) => PrintT(<<"BEHAVIOUR", ToJson(<<[op |-> "Setup", chain |-> SubSeq(Hops, 1, Len(chain) - 2 + (CHOOSE i \in 1..Len(Hops) : Hops[i] = hist[2].owner)), cls |-> cls]>> \o hist)>>)
+(* a hop re-keys, the teamserver restarts or the operator clears a middle hop's queue, traffic in both directions *)
+LifeNext == \/ hist = <<>> /\ \E i \in 1..Len(chain) : Rekey(chain[i])
+            \/ Len(hist) = 1 /\ (Restart \/ \E i \in 2..(Len(chain) - 1) : DownClear(chain[i]))
+            \/ Len(hist) = 2 /\ ((\E k \in Kinds : Down(k)) \/ \E i \in 2..(Len(chain) - 1) : DownClear(chain[i]))
+            \/ Len(hist) = 3 /\ \E o \in {chain[Len(chain)], chain[1], "nobody"} : Up(o)
+LifeInit == /\ \E n \in 2..4 : chain = SubSeq(Hops, 1, n)
+            /\ cls = [h \in {Hops[i] : i \in 1..Len(Hops)} |-> "small"]
+            /\ last = [op |-> "none"] /\ hist = <<>>
+LifeSpec == LifeInit /\ [][LifeNext]_vars
+EmitLife == (Len(hist) = 4) => PrintT(<<"BEHAVIOUR", ToJson(<<[op |-> "Setup", chain |-> chain, cls |-> cls]>> \o hist)>>)
 =============================================================================
